@@ -133,3 +133,17 @@ CHECKS["C11"] = _resmgr("C11",
     "intermediate cache save of the interrupted request (captured through the os shim); runtime truth menu: unchanged, any one container gone/stopped, a pod gone, everything gone, one new container; up to two restarts; both policies; "
     "oracle: exactly the created/running containers hold allocations, unknown pods/containers purged, C01-C05/C02 clauses; non-trivial = states with at least two live containers",
     "6 scenarios, depth 4", "6 scenarios, depth 5")
+CHECKS["C14"] = dict(
+    level="model_checking",
+    rule="(a) explicit-state BFS over NRI event sequences with known, never-seen and already-removed pod/container ids, duplicates and out-of-order lifecycle events on a real resource manager (both policies), every state extended by a "
+         "canonical valid probe (run pod, create, start, stop, remove a fresh BestEffort container) that must be served; (b) every annotation key the plugins interpret x a menu of 32 values (empty, booleans, huge/negative numbers, "
+         "malformed YAML/JSON, null elements, 1 MiB strings) x container/pod/bare form, and every resource shape with an optional sub-message absent, each through a full lifecycle + synchronize + reconfigure; "
+         "(c) memory-qos, memtierd and sgx-epc handlers x configurations x container shapes x annotation sets; oracle: no handler panics; non-trivial = states/cases beyond the well-formed lifecycle",
+    bound=dict(quick="4 scenarios depth 3 + ~3200 input cases + ~1000 side-plugin cases", thorough="4 scenarios depth 4 + same inputs"),
+    assumptions=_RESMGR_ASSUME + ["a panic is observed through recover() around the handler call; log.Fatal/os.Exit in a handler would kill the worker and be reported as a dead worker"],
+    stages=[dict(pkg="./pkg/resmgr", run="TestVerifC14", shards=4, quick=dict(deadline_s=420), thorough=dict(deadline_s=3000)),
+            dict(pkg="./pkg/resmgr", run="TestVerifC14Inputs", shards=16),
+            dict(pkg="./cmd/plugins/memory-qos", run="TestVerifC14", shards=1),
+            dict(pkg="./cmd/plugins/memtierd", run="TestVerifC14", shards=1),
+            dict(pkg="./cmd/plugins/sgx-epc", run="TestVerifC14", shards=1)],
+)
